@@ -236,14 +236,16 @@ func init() {
 		"vrtQuiesce": func(fr *frame, a []Value) Value {
 			th := fr.th
 			th.visible = false
+			th.quiescing = true
 			th.block("vrtQuiesce", func() bool {
 				for _, t := range th.eng.threads {
-					if t != th && t.enabled() {
+					if t != th && !t.quiescing && t.enabled() {
 						return false
 					}
 				}
 				return true
 			})
+			th.quiescing = false
 			return nil
 		},
 		// harness clock (ns): vrtClock() reads, vrtClockSet(ns) sets; time.Now() returns it
